@@ -1,7 +1,7 @@
 from props.common import *
 
 INST = [("null", dict(BE=0, K=2, M=1)), ("xor333", dict(BE=3, K=3, M=3, HD=3)), ("rs21", dict(BE=6, K=2, M=1)),
-        ("rs1022", dict(BE=6, K=10, M=22)), ("isal21", dict(BE=4, K=2, M=1)), ("cauchy22", dict(BE=7, K=2, M=2))]
+        ("rs42", dict(BE=6, K=4, M=2)), ("isal21", dict(BE=4, K=2, M=1)), ("cauchy22", dict(BE=7, K=2, M=2))]
 
 def plan(ctx):
     obs = []
